@@ -818,7 +818,12 @@ ovni_ev_add_jumbo(struct ovni_ev *ev, const uint8_t *buf, uint32_t bufsize)
 
 	size_t totalsize = evsize + bufsize;
 
-	if (totalsize >= OVNI_MAX_EV_BUF)
+	/* The event must fit in the buffer along with the two flush events
+	 * that are added after it when the buffer is flushed first, otherwise
+	 * adding them would cause another flush with nested flush events. */
+	size_t flushsize = 2 * sizeof(struct ovni_ev_header);
+
+	if (totalsize + flushsize >= OVNI_MAX_EV_BUF)
 		die("event too large");
 
 	/* Check if the event fits or flush first otherwise */
